@@ -166,7 +166,8 @@ static void upipe_rtp_h264_output_nalu(struct upipe *upipe,
     bool split = size > RTP_SPLIT_SIZE;
     uint32_t fragment = 0;
 
-    while (size) {
+    /* a NAL unit may consist of its header only (end of sequence / stream) */
+    do {
         bool last_fragment = size <= RTP_SPLIT_SIZE;
         size_t split_size = last_fragment ? size : RTP_SPLIT_SIZE;
         uint8_t hdr[2] = { nalu, 0 };
@@ -224,7 +225,7 @@ static void upipe_rtp_h264_output_nalu(struct upipe *upipe,
         size -= split_size;
         fragment++;
         uref = next;
-    }
+    } while (size);
 }
 
 static void upipe_rtp_h264_drop(struct upipe *upipe, struct uref *uref)
@@ -263,8 +264,13 @@ static void upipe_rtp_h264_input(struct upipe *upipe,
         if (!e)
             e = buf + size;
 
-        struct uref *part = uref_block_splice(uref, s - buf + s_len + 1,
-                                              e - (s + s_len + 1));
+        size_t part_size = e - (s + s_len + 1);
+        struct uref *part = uref_block_splice(uref,
+                part_size ? s - buf + s_len + 1 : 0, part_size);
+        if (unlikely(part == NULL)) {
+            upipe_throw_fatal(upipe, UBASE_ERR_ALLOC);
+            break;
+        }
         upipe_rtp_h264_output_nalu(upipe, *(s + s_len), part, upump_p);
         s = e;
         s_len = e_len;
